@@ -48,6 +48,9 @@ CHECKS = {
  "C12": ('abstract interpretation of time_respecting_paths (temporal_dag inlined, simple paths computed on the recorded DAG) on symbolic temporal graphs with presence as an uninterpreted predicate; window construction over all orderings',
          'Every returned path is judged against every clause of the statement (non-empty, leaves u, chained, strictly increasing times in the window, each hop present and oriented, no reversal, waiting only through active instants, reaches v, key, no duplicates) on bounded shapes (3-4 nodes, 2-3 stored pairs, ids t+1,t+2,t+4, all presence valuations; walks that return to their source on targeted valuations; directed and undirected); the ids expanded are exactly those in [start,end] for all orderings. Larger graphs and completeness (C13) are not decided.',
          "4/C12"),
+ "C13": ("abstract interpretation of time_respecting_paths and all_time_respecting_paths on symbolic temporal graphs, compared with the checker's brute-force enumeration of admissible hop sequences",
+         "On bounded shapes (3 nodes, 2-3 stored pairs and 3-cycles through the source, ids t+1,t+2,t+4, every presence valuation, every source, v omitted/given, whole range / inner window; both classes) the set returned with sample=1 equals the set of all hop sequences satisfying the conditions of C12; nothing is returned when u has no interaction at an explicit start; all_time_respecting_paths maps (u,w) for the nodes present at min_t to exactly the per-source result. The sample<1 subset clause and larger graphs are NOT decided.",
+         "3.1, 4/C13"),
  "C14": ("abstract interpretation of annotate_paths on generic paths over all orderings (ties) and input permutations",
          "The five answers equal the argmin sets for every ordering of hop counts, durations and arrival times of three generic paths, in every input order (2197 order types x 6); zero-valued minima covered when the code tests for truth.",
          "3.6 S2, 4/C14"),
@@ -59,7 +62,6 @@ CHECKS = {
          "4/C17"),
 }
 NA = [
- ("C13", "completeness of a data-dependent graph search: no shape-of-the-code necessary condition beyond what C12/C15 decide (DESIGN.md section 5)"),
  ("C20", "numerical range / invariance of floating-point accumulations over runtime path sets (DESIGN.md section 5)"),
 ]
 def main():
